@@ -144,6 +144,15 @@ void ConfigureCtx(SSL_CTX *ctx,
     throw std::logic_error("failed to set TLS ECDH");
   }
 
+#if OPENSSL_VERSION_NUMBER >= 0x10101000L
+  // session resumption is not offered by this library; don't send TLS 1.3 session tickets:
+  // they are written during a later receive and, if the peer has already closed its side
+  // (send + close), that write fails and takes the received data down with it
+  if(SSL_CTX_set_num_tickets(ctx, 0) <= 0) {
+    throw std::logic_error("failed to disable TLS session tickets");
+  }
+#endif // OPENSSL_VERSION_NUMBER
+
   if(SSL_CTX_use_certificate_file(ctx, certFilePath, SSL_FILETYPE_PEM) <= 0) {
     throw std::runtime_error("failed to set certificate");
   }
